@@ -1,16 +1,22 @@
 #!/bin/bash
-# Process one wave of sub-agent mutants: for every /tmp/wt-<ID>-<suffix>/MUTANT, confirm it and run the
-# property's check. Usage: scripts/wave.sh <suffix-glob>   e.g. scripts/wave.sh '7?'
+# Process one wave of sub-agent mutants: for every /tmp/wt-<ID>-<suffix>/MUTANT, confirm it (suite and
+# demonstration both ways, in its worktree) and run the property's check against a scratch copy of
+# /repo carrying the patch (scripts/par_seeded.sh).  Usage: scripts/wave.sh <suffix-glob>   e.g. '11?'
 cd "$(dirname "$0")/.."
-for wt in /tmp/wt-*-$1; do
-  [ -f $wt/MUTANT/patch.diff ] || { echo "PENDING  $wt"; continue; }
-  id=$(basename $wt | sed 's/^wt-\(C[0-9]*\)-.*/\1/'); sfx=$(basename $wt | sed 's/^wt-C[0-9]*-//')
-  name="$id-w$sfx"
+one() { wt=$1; id=$(basename $wt | sed 's/^wt-\(C[0-9]*\)-.*/\1/'); sfx=$(basename $wt | sed 's/^wt-C[0-9]*-//'); name="$id-w$sfx"
+  [ -f $wt/MUTANT/patch.diff ] || { echo "PENDING  $wt"; return; }
   if [ ! -d seeded/$name ]; then
-    if ! scripts/confirm_mutant.sh $wt $name > /tmp/confirm-$name.log 2>&1; then echo "UNCONFIRMED $name: $(tail -1 /tmp/confirm-$name.log)"; continue; fi
+    if ! scripts/confirm_mutant.sh $wt $name > /tmp/confirm-$name.log 2>&1; then echo "UNCONFIRMED $name: $(tail -n 1 /tmp/confirm-$name.log)"; return; fi
   fi
-  out=$(scripts/try_patch.sh seeded/$name/patch.diff $id 2>&1)
-  files=$(grep '^+++ b/' seeded/$name/patch.diff | sed 's|+++ b/||' | tr '\n' ' ')
-  if echo "$out" | grep -q "$id exit=1"; then echo "CAUGHT  $name [$files] $(echo "$out" | grep 'violation class' | head -2 | sed 's/violation class: //' | tr '\n' ' ')";
-  elif echo "$out" | grep -q "$id exit=0"; then echo "MISSED  $name [$files]"; else echo "ERROR   $name: $(echo "$out" | tail -2 | tr '\n' ' ')"; fi
-done
+  [ -f seeded/$name/meta.json ] || python3 - seeded/$name <<'PY'
+import json,sys
+d=sys.argv[1]; a=json.load(open(d+'/agent_meta.json'))
+m={"property":a["property"],"origin":"independent sub-agent given only the property text and a scratch worktree","summary":a.get("summary",""),"needs_to_manifest":a.get("needs_to_manifest",""),"files_changed":a.get("files_changed") or [],
+ "confirmed":"scripts/confirm_mutant.sh: patch applies and builds; coca's suite (-p 1) keeps all 191 stable tests passing; demo/run.sh passes without and fails with the patch"}
+json.dump(m,open(d+'/meta.json','w'),indent=1,ensure_ascii=False)
+PY
+}
+export -f one
+ls -d /tmp/wt-*-$1 | xargs -P 4 -I{} bash -c 'one {}'
+names=$(for wt in /tmp/wt-*-$1; do id=$(basename $wt | sed 's/^wt-\(C[0-9]*\)-.*/\1/'); sfx=$(basename $wt | sed 's/^wt-C[0-9]*-//'); [ -d seeded/$id-w$sfx ] && echo "$id-w$sfx"; done)
+[ -n "$names" ] && scripts/par_seeded.sh -j ${J:-3} $names
